@@ -53,6 +53,9 @@ pub struct Cfg {
     /// of the generated lines: its mere presence must not change anything)
     #[serde(default, skip_serializing_if = "std::ops::Not::not")]
     pub user_rule: bool,
+    /// update_currency calls, "name=rate", in order
+    #[serde(default, skip_serializing_if = "Vec::is_empty")]
+    pub rates: Vec<String>,
 }
 
 impl Cfg {
@@ -92,6 +95,12 @@ impl Cfg {
             }
             if !c.add_dynamic_type_item("fmt", 1, "{value} qq", vec!["{NUMBER:value} {TEXT:type:qq}"], "{value}", "{value}", vec!["qq".to_string()], Some(d), Some(rounding), Some(remove)) {
                 return Err("add_dynamic_type_item(fmt, 1) rejected".into());
+            }
+        }
+        for r in self.rates.iter() {
+            let (name, rate) = r.split_once('=').ok_or("bad rate entry")?;
+            if !c.update_currency(name, rate.parse::<f64>().map_err(|e| e.to_string())?) {
+                return Err(format!("update_currency({}) rejected", name));
             }
         }
         if self.user_rule {
